@@ -409,6 +409,108 @@ func runValidate(c *core.Ctx) []core.Obligation {
 		}
 	}
 
+	// ---- (v.b2) the whole-input flags are computed over (at least) the text that is parsed with them
+	if ipf := c.Lookup("json.internalParseFlags"); ipf != nil {
+		for _, fn := range c.RepoFunctions() {
+			if fn.Blocks == nil || fn.Synthetic != "" || !strings.HasPrefix(shortName(fn), "json.") {
+				continue
+			}
+			var scanned []ssa.Value
+			for _, ci := range callsIn(fn) {
+				if staticCallee(ci.Common()) == ipf && len(ci.Common().Args) == 1 {
+					scanned = append(scanned, ci.Common().Args[0])
+				}
+			}
+			if len(scanned) == 0 {
+				continue
+			}
+			var covers func(p ssa.Value) bool
+			covers = func(p ssa.Value) bool {
+				for _, f := range scanned {
+					if p == f {
+						return true
+					}
+				}
+				// a suffix of scanned text is scanned text: skipSpaces(x), skipSpacesN(x)#0, x[i:]
+				switch x := p.(type) {
+				case *ssa.Call:
+					if f := staticCallee(x.Common()); f != nil && strings.HasPrefix(f.Name(), "skipSpaces") && len(x.Common().Args) == 1 {
+						if covers(x.Common().Args[0]) {
+							return true
+						}
+					}
+				case *ssa.Extract:
+					if call, ok := x.Tuple.(*ssa.Call); ok && x.Index == 0 {
+						if f := staticCallee(call.Common()); f != nil && strings.HasPrefix(f.Name(), "skipSpaces") && len(call.Common().Args) == 1 {
+							if covers(call.Common().Args[0]) {
+								return true
+							}
+						}
+					}
+				case *ssa.Slice:
+					if covers(x.X) {
+						return true
+					}
+				case *ssa.Phi:
+					all := len(x.Edges) > 0
+					for _, e := range x.Edges {
+						if e != ssa.Value(x) && !covers(e) {
+							all = false
+						}
+					}
+					if all {
+						return true
+					}
+				}
+				for _, f := range scanned {
+					if p == f || sameSource(p, f) || derivesFromValue(p, f) {
+						return true
+					}
+					fp, ok1 := fieldOfLoad(p)
+					ff, ok2 := fieldOfLoad(f)
+					if ok1 && ok2 && fp == ff {
+						return true
+					}
+				}
+				return false
+			}
+			n, bad := 0, ""
+			for _, ci := range callsIn(fn) {
+				cc := ci.Common()
+				hasDecoder := false
+				var bufs []ssa.Value
+				for _, a := range cc.Args {
+					if namedKey(a.Type()) == "json.decoder" {
+						hasDecoder = true
+					}
+					if sl, ok := a.Type().Underlying().(*types.Slice); ok {
+						if bt, ok := sl.Elem().Underlying().(*types.Basic); ok && bt.Kind() == types.Uint8 {
+							bufs = append(bufs, a)
+						}
+					}
+				}
+				if !hasDecoder || staticCallee(cc) == ipf {
+					continue
+				}
+				for _, p := range bufs {
+					n++
+					if !covers(p) {
+						bad = c.InstrPos(ci)
+					}
+				}
+			}
+			key := "flag-scope:" + shortName(fn)
+			switch {
+			case bad != "":
+				b.addP([]string{"C05", "C02", "C11"}, core.Violation, key, bad, fmt.Sprintf("%s parses a buffer with whole-input flags (noBackslash, validAsciiPrint) that were computed over a different, smaller piece of text: a backslash or control character in the part that was not scanned is missed by the string fast paths", shortName(fn)))
+			case n == 0:
+				b.addP([]string{"C05", "C02", "C11"}, core.Discharged, key, c.FuncPos(fn), "flags are computed here and stored with the text they describe; no parse call in this function")
+			default:
+				b.addP([]string{"C05", "C02", "C11"}, core.Discharged, key, c.FuncPos(fn), fmt.Sprintf("%d parse call(s), each on the text the flags were computed over (or a part of it)", n))
+			}
+		}
+	}
+
 	// ---- (v.c) a decoder applied to the unquoted buffer has the internal bits cleared
 	{
 		var fns []*ssa.Function
